@@ -76,6 +76,21 @@ def sl12(F, R):
     if not drains:
         R.missing("SL1", "work list (a set/queue drained by the closure loop) in slice_some", b.where())
         return
+    # completeness of the scan: none of the loops of slice_some (work list, edges of a vertex, rebuild) is left early by a
+    # break / early return — a reachable vertex or an edge of a kept vertex would be lost
+    nloops = 0
+    for e in calls:
+        if e.callee.get("decl") == "std::iter::Iterator::next":
+            nloops += 1
+            try:
+                br = b.early_exits(e.site[0])
+            except Exception:
+                br = []
+            if br:
+                R.bad("SL1", "SL1/Sodg::slice_some/scan-stops-early", e.where(),
+                      "a loop of slice_some() can be left before its iterator is exhausted (break / early return): part of the work list, "
+                      "of a vertex's edges or of the vertex store is not looked at, so reachable vertices or accepted edges are lost",
+                      {"iterator": show(e.args[0], b)[:160]})
     W = set_id(drains[0].args[0])
     inserts = [e for e in calls if e.name in ("insert", "push", "push_back") and e.args and set_id(e.args[0]) == W]
     in_loop = [e for e in inserts if any(is_iter_next_fact(f) for f in e.facts)]
